@@ -153,6 +153,16 @@ ReseedCore(g, x, ub, su, cb, protect) ==
         g1 == SeedTo(g, x)
         g2 == IF wasLeaf /\ su /\ x # g.seed /\ Len(g1.kids[x]) = 1 THEN HoistOnly(g1, x) ELSE g1
     IN IF ub THEN SettleEnc(g2, su, cb, protect) ELSE Settle(g2, su, cb, protect)
+\* Would this re-seeding drop a length?  collapse_basal_bifurcation adds the deleted edge's length to the kept
+\* edge inside try/except: when the kept edge has no length (None) and the deleted one has, that length is lost
+\* (counted as drift, see MetricJudged in Trace_TreeOps).  Everything else a re-seeding does - the inversions
+\* along the path, the suppression of unifurcations - merges None-aware and must conserve lengths.
+BasalLossy(g) == LET d == BasalDel(g, {})  k == g.kids[g.seed]  keep == IF k[1] = d THEN k[2] ELSE k[1]
+                 IN d # 0 /\ g.len[keep] < 0 /\ g.len[d] >= 0
+ReseedLossy(g, x, ub, su, cb) ==
+    LET g1 == SeedTo(g, x)
+        g2 == IF ub /\ cb /\ NotRooted(g1) /\ su /\ HiddenBasal(g1) THEN Suppress(g1, {}) ELSE g1
+    IN cb /\ NotRooted(g2) /\ Len(g2.kids[g2.seed]) = 2 /\ BasalLossy(g2)
 OpReseedAt(g, x, ub, su, cb) == R(ReseedCore(g, x, ub, su, cb, {}), "")
 RerootCore(g, x, su) == [ReseedCore(g, x, FALSE, su, FALSE, {}) EXCEPT !.rooted = 1]
 OpRerootAtNode(g, x, su) == R(RerootCore(g, x, su), "")
